@@ -21,6 +21,7 @@ Definition u32_as_i32 (z : Z) : Z := if z <=? I32_MAX then z else z - 4294967296
 Definition wrap_i32 (z : Z) : Z := u32_as_i32 (z mod 4294967296).
 Definition i32_saturating_sub (a b : Z) : Z := as_i32 (a - b).
 Definition u32_saturating_add (a b : Z) : Z := as_u32 (a + b).
+Definition u32_saturating_mul (a b : Z) : Z := as_u32 (a * b).
 Definition i32_wrapping_sub (a b : Z) : Z := wrap_i32 (a - b).
 Definition u32_wrapping_add (a b : Z) : Z := (a + b) mod 4294967296.
 
